@@ -179,7 +179,7 @@ func (p *e2eProg) nested(t e2eTy, depth int) (string, *big.Int) {
 func (p *e2eProg) step() {
 	rng := p.rng
 	T := e2eLarge[rng.IntN(len(e2eLarge))]
-	kind := []string{"lit", "bin", "bin", "bin", "cmp", "cmp", "neg", "nested", "nested", "pow", "s2l", "s2l", "l2s", "l2s", "l2l", "l2l", "compound", "call", "struct", "array", "loop", "if", "opaque", "incdec"}[rng.IntN(24)]
+	kind := []string{"lit", "bin", "bin", "bin", "cmp", "cmp", "neg", "nested", "nested", "pow", "s2l", "s2l", "l2s", "l2s", "l2l", "l2l", "compound", "call", "struct", "array", "loop", "if", "opaque", "incdec", "refwrite", "refparam"}[rng.IntN(26)]
 	p.kinds[kind]++
 	switch kind {
 	case "lit":
@@ -378,6 +378,24 @@ func (p *e2eProg) step() {
 			cur = p.bin(T, "+", p.bin(T, "*", cur, b.val), c.val)
 		}
 		p.print(n, cur.String(), fmt.Sprintf("%s: %d iterations of acc = acc * %s + %s from %s", T.name, k, b.val, c.val, a.val))
+	case "refwrite":
+		a, b := p.operand(T), p.operand(T)
+		n, rn := p.fresh("z"), p.fresh("r")
+		p.emit("let %s := %s;", n, a.name)
+		p.emit("let %s: &'%s = &'%s;", rn, T.name, n)
+		p.emit("%s = %s;", rn, b.name)
+		p.print(n, b.val.String(), fmt.Sprintf("write of %s through a &'%s reference is visible in the referent", b.val, T.name))
+		p.print(a.name, a.val.String(), "the variable the referent was copied from keeps its value")
+	case "refparam":
+		a, b := p.operand(T), p.operand(T)
+		n := p.fresh("z")
+		p.emit("let %s := %s;", n, a.name)
+		p.emit("addInto%s(&'%s, %s);", T.name, n, b.name)
+		r := p.bin(T, "+", b.val, big.NewInt(1))
+		p.print(n, r.String(), fmt.Sprintf("addInto%s(&'z, b): z = %s; z = z + 1 through a &'%s parameter (z was %s)", T.name, b.val, T.name, a.val))
+		t := p.fresh("s")
+		p.emit("let %s := peek%s(&%s);", t, T.name, n)
+		p.print(t, r.String(), "read through a &"+T.name+" parameter")
 	case "if":
 		a, b := p.operand(T), p.operand(T)
 		op := []string{"<", ">", "<=", ">=", "==", "!="}[rng.IntN(6)]
@@ -415,6 +433,8 @@ func e2ePrelude() string {
 	}
 	for _, t := range e2eLarge {
 		fmt.Fprintf(&sb, "fn mad%s(a: %s, b: %s, c: %s) -> %s {\n    return a + b * c;\n}\n\n", t.name, t.name, t.name, t.name, t.name)
+		fmt.Fprintf(&sb, "fn addInto%s(r: &'%s, d: %s) {\n    r = d;\n    r = r + 1;\n}\n\n", t.name, t.name, t.name)
+		fmt.Fprintf(&sb, "fn peek%s(r: &%s) -> %s {\n    return r + 0;\n}\n\n", t.name, t.name, t.name)
 		fmt.Fprintf(&sb, "type Box%s struct {\n    .P: i8,\n    .V: %s,\n    .Q: i16,\n};\n\n", t.name, t.name)
 	}
 	return sb.String()
